@@ -63,24 +63,25 @@ func BuildMethodCallMap(dataStructs []core_domain.CodeDataStruct, projectMaps ma
 }
 
 var loopCount = 0
-var lastChild = ""
 var loopDepth = 6
 
 func (c RCallGraph) BuildRCallChain(funcName string, methodMap map[string][]string) string {
+	loopCount = 0
+	return c.buildRCallChain(funcName, methodMap, make(map[string]bool))
+}
+
+func (c RCallGraph) buildRCallChain(funcName string, methodMap map[string][]string, visited map[string]bool) string {
 	if loopCount >= loopDepth {
 		return "\n"
 	}
 	loopCount++
+	visited[funcName] = true
 
 	if len(methodMap[funcName]) > 0 {
 		var arrayResult = ""
 		for _, child := range methodMap[funcName] {
-			if child == lastChild {
-				return ""
-			}
-			if len(methodMap[child]) > 0 {
-				lastChild = child
-				arrayResult = arrayResult + c.BuildRCallChain(child, methodMap)
+			if len(methodMap[child]) > 0 && !visited[child] {
+				arrayResult = arrayResult + c.buildRCallChain(child, methodMap, visited)
 			}
 			if funcName == child {
 				continue
